@@ -20,6 +20,7 @@ use std::time::{Duration, Instant};
 
 thread_local! {
     static IN_GUARD: Cell<bool> = const { Cell::new(false) };
+    static LAST_PANIC: std::cell::RefCell<String> = const { std::cell::RefCell::new(String::new()) };
 }
 
 /// Install a panic hook that is silent for panics raised inside `Cx::guard`
@@ -29,6 +30,11 @@ pub fn install_panic_hook() {
     std::panic::set_hook(Box::new(move |info| {
         if !IN_GUARD.with(|g| g.get()) {
             default(info);
+        } else {
+            // remember message and location of the subject's panic for the violation report
+            let msg = info.payload().downcast_ref::<&str>().map(|s| s.to_string()).or_else(|| info.payload().downcast_ref::<String>().cloned()).unwrap_or_default();
+            let loc = info.location().map(|l| format!("{}:{}", l.file(), l.line())).unwrap_or_default();
+            LAST_PANIC.with(|p| *p.borrow_mut() = format!("{} at {}", msg, loc));
         }
     }));
 }
@@ -200,13 +206,28 @@ impl<'a> Cx<'a> {
             self.violations.push(Violation { sub, space: self.space.to_string(), seq: self.seq.clone(), input: self.input.clone(), config: cfg, detail: detail() });
         }
     }
-    /// Run subject code under catch_unwind; a panic is counted and returns None.
+    /// Run subject code under catch_unwind.  A panic returns None and is itself reported as a
+    /// violation of the property under check (sub-check "subject-panicked"): every statement
+    /// describes what the call returns, which presupposes that it returns.
     pub fn guard<T>(&mut self, f: impl FnOnce() -> T) -> Option<T> {
+        let r = guard(f);
+        if r.is_none() {
+            self.c.panics += 1;
+            let msg = LAST_PANIC.with(|p| p.borrow().clone());
+            self.check("subject-panicked", false, &|| "(some configuration of this state; the first panic is recorded)".to_string(), &|| serde_json::json!({"panic": msg}));
+        }
+        r
+    }
+    /// Like `guard`, for callers that report the panic themselves with its exact configuration.
+    pub fn guard_quiet<T>(&mut self, f: impl FnOnce() -> T) -> Option<T> {
         let r = guard(f);
         if r.is_none() {
             self.c.panics += 1;
         }
         r
+    }
+    pub fn last_panic(&self) -> String {
+        LAST_PANIC.with(|p| p.borrow().clone())
     }
     pub fn sample(&mut self, v: &dyn Fn() -> Value) {
         if self.samples.len() < KEEP_SAMPLES {
